@@ -6,9 +6,13 @@ with an independent single-pass expansion of the same AST (rv.c12_model.Ref) —
 missing plain variables, strict-mode error, unknown-include marker.
 
 Part B (value opacity): for every slot kind (where a bound value / loop item enters the output) x every
-sentinel kind (a template construct over fresh names, each fresh name bound to a unique marker) the real
+sentinel kind (a template construct over a sentinel name bound to a unique marker) the real
 output must equal the expansion that emits the value verbatim. When it does not, the construct kind that
 was interpreted identifies the re-interpreting pass; mechanism key = "opacity:<slot kind>-><pass>".
+Every (slot, sentinel) pair is swept in three variants: the sentinel's name occurs nowhere else, or the very same
+construct is ALSO a real slot of the template holding the value slot, before / after it (a renderer substituting per
+name or per distinct construct text re-reads a value only then); per combination the sentinel's name sorts before or
+after the slot's name and the value is bound first or last in the context (any name-by-name substitution order).
 
 Part C (one long-lived renderer): a session of 3-9 renderings on ONE Ribosome, separated by what callers do between
 renderings — new values for the same names, a single value changed, an equal-but-distinct context, a bound list
@@ -17,6 +21,12 @@ create_template), a so far unknown partial registered, `strict` switched — whi
 filter callable also starts a rendering of an unrelated small template on the same renderer (re-entrancy). Each
 rendering must be the Part A expansion of the templates registered at that moment with the bindings of that call;
 mechanism key = "session:after-<step>:<Part A key>" / "session:nested-render-*".
+Step "neighbour": ANOTHER renderer is created and used in the same process, configured differently in everything a
+renderer is configured with (custom filters named like the session's default texts / a built-in / the session's own
+custom filter; its own templates under the same names and under names unknown to the session; the other `strict`).
+The session then goes on on its renderer (created before the other one) or on a new one with the session's
+configuration (created after it); the other renderer's own renderings (at once and at the end of the session) must
+follow ITS configuration; key = "session:neighbour-own-page[-later]:<Part A key>".
 
 Part D (overlapping renderings): 2-3 real threads render on ONE Ribosome under rv.sched (switches at every read /
 write of an instance field of the renderer); each result must be its own expansion; key = "overlap:<Part A key>".
@@ -30,17 +40,21 @@ PID = "C12"
 LEVEL = "exploration"
 TECHNIQUE = ("runtime monitoring: the real Ribosome renders generated templates; outputs, warnings and errors are "
              "compared with an independent single-pass reference expansion of the generator's own template AST; "
-             "value opacity is monitored by taint sentinels (constructs over fresh names bound to unique markers); "
+             "value opacity is monitored by taint sentinels (constructs over sentinel names bound to unique markers, the "
+             "same construct absent from / present before / present after the value slot as a real slot of the template); "
              "the same oracle judges every rendering of multi-step sessions on one long-lived renderer (with re-entrant "
-             "renderings started from filter callbacks) and of overlapping renderings from threads under a controlled scheduler")
+             "renderings started from filter callbacks, and with a second, differently configured renderer created and used "
+             "next to it) and of overlapping renderings from threads under a controlled scheduler")
 RULE = ("Part A case = 1 generated template set (main + up to 3 levels of acyclic includes) x 5 contexts x strict on/off; "
-        "Part B case = 1 host template x every (slot location, slot form, sentinel kind) combination; "
+        "Part B case = 1 host template x every (slot location, slot form, sentinel kind, sentinel construct also a real "
+        "slot: no / before / after) combination; "
         "Part C case = 1 template set x 1 long-lived renderer x a session of 3-9 renderings (steps drawn from "
-        "revalue / revalue-one / same / new / mutate-list / reregister / register-unknown / repage / toggle-strict); "
+        "revalue / revalue-one / same / new / mutate-list / reregister / register-unknown / repage / toggle-strict / "
+        "neighbour = another differently configured renderer created and used); "
         "Part D case = 1 template set x 1 renderer x 2-3 threads x 1-2 renderings each x 1 schedule; "
         "non-trivial = the template set uses >= 2 construct kinds (Part C: and >= 2 renderings; Part D: and the schedule "
         "switched threads while another rendering was in progress); distinct = (template shape, binding pattern, strict) "
-        "for Part A, (host shape, slot location, slot form, sentinel kind) for Part B, (template shapes, step sequence) "
+        "for Part A, (host shape, slot location, slot form, sentinel kind, echo) for Part B, (template shapes, step sequence) "
         "for Part C and (template shapes, thread count, schedule trace) for Part D")
 ASSUMPTIONS = [
     "Part A: literal text, values, loop items and defaults contain no '{{' or '}}' (literal text and string values no brace at all)",
@@ -59,6 +73,11 @@ ASSUMPTIONS = [
     "public attribute at call time; earlier renderings, errors raised by them and renderings started from a filter "
     "callback on the same renderer do not change the result (the statement quantifies over all templates and contexts, "
     "not over fresh renderers); the registry is only changed through the public methods, never by writing to `.templates`",
+    "Part C 'neighbour': a renderer's filters, templates and strict flag are those given to ITS constructor / registered "
+    "on IT / set on ITS attribute; other renderers of the process (created earlier or later, whatever their filters, "
+    "templates and flag) do not change its renderings; the two renderers never share a dict handed in by the caller",
+    "Part B: a sentinel construct that is also a real slot of the template is expanded there by the reference and stays "
+    "verbatim inside the value; the known-finding keys are unchanged (a pair is named by slot kind and interpreting pass)",
     "Part D: renderings that overlap in time on one renderer (registry unchanged meanwhile) must each yield their own "
     "expansion; threads are switched only at reads/writes of the renderer's instance fields",
 ]
@@ -104,6 +123,7 @@ def _classes():
 
         _MON["Ribosome"] = MonRibosome
         _MON["mRNA"] = mRNA
+        _MON["builtin"] = dict(Ribosome.BUILTIN_FILTERS)    # the documented filters, before any renderer exists
     return _MON["Ribosome"], _MON["mRNA"]
 
 
@@ -113,7 +133,7 @@ def teardown_shard(ctx):
         ctx.count(k, v)
 
 
-NB = {"quick": 300, "thorough": 5000}      # Part B hosts (x 429 slot/sentinel combinations each)
+NB = {"quick": 200, "thorough": 3000}      # Part B hosts (x 1045 slot/sentinel/echo combinations each)
 NA = {"quick": 30000, "thorough": 500000}  # Part A template sets (x 5 contexts each)
 NC = {"quick": 8000, "thorough": 120000}   # Part C sessions on one long-lived renderer (3-9 renderings each)
 ND = {"quick": 600, "thorough": 8000}      # Part D overlapping renderings from 2-3 threads on one renderer
@@ -138,12 +158,26 @@ def plan(tier):
                 "via_translate_name": 15000, "via_translate_mrna": 15000, "via_synthesize": 15000,
                 # Part B sweep
                 "partb_combos": 40000, "partb_baseline_ok": 40000, "partb_opaque_ok": 10000,
+                "partb_echo_before": 10000, "partb_echo_after": 10000, "partb_echo_opaque_ok": 10000,
+                "opaque_ok_echo_before:simple": 1000, "opaque_ok_echo_after:simple": 1000,
+                "opaque_ok_echo_before:optional": 1000, "opaque_ok_echo_after:optional": 1000,
+                "opaque_ok_echo_before:loop-item": 500, "opaque_ok_echo_after:loop-item": 500,
+                "partb_slot_bound_first_sentinel_name_sorts_after": 5000,
+                "partb_slot_bound_first_sentinel_name_sorts_before": 5000,
+                "partb_slot_bound_last_sentinel_name_sorts_after": 5000,
+                "partb_slot_bound_last_sentinel_name_sorts_before": 5000,
                 # Part C sessions / Part D overlapping renderings
                 "partc_sessions": 1500, "partc_renders": 8000, "partc_text_compared": 7000,
                 "partc_same_names_new_values_with_include": 3000, "partc_list_mutated_in_place_then_rendered": 500,
                 "partc_registry_changed_then_rendered": 1000, "partc_strict_toggled_then_rendered": 250,
                 "partc_nested_renders": 5000, "partc:ref_include_depth1": 10000, "partc:ref_include_depth2": 6000,
                 "partc:strict_error_expected_and_raised": 300, "partc:unknown_include_checked": 2500,
+                "partc_neighbours_built": 500, "partc_neighbour_renders": 1000, "partc_nb_text_compared": 1000,
+                "partc_renders_while_another_renderer_exists": 1500,
+                "partc_render_on_renderer_created_before_the_other": 600,
+                "partc_render_on_renderer_created_after_the_other": 600,
+                "partc_default_text_is_filter_name_on_other_renderer": 300,
+                "partc_unknown_include_is_template_of_other_renderer": 120,
                 "partd_schedules": 100, "partd_schedules_interleaved": 70, "partd_renders": 300,
                 "partd_text_compared": 250, "partd:ref_include_depth1": 500,
                 # anchored passes of the real renderer entered
@@ -216,7 +250,7 @@ JUDGE_OVERLAP = False
 
 
 def assess(ctx, templates, filters, res, bind, strict, via, prefix="", quiet=False, tag=None, extra_witness=None,
-           stats_out=None):
+           stats_out=None, ref_out=None):
     """Judge one rendering result `res` of (templates, bind, strict) against the single-pass expansion.
     `filters` = the (pure) filter callables the reference applies. `tag` selects the coverage counters
     ("parta" keeps the historical names; other tags prefix them); `extra_witness()` is evaluated only on a violation."""
@@ -239,6 +273,8 @@ def assess(ctx, templates, filters, res, bind, strict, via, prefix="", quiet=Fal
             ctx.count(cn(k), v)
     if stats_out is not None:
         stats_out.update(ref.stats)
+    if ref_out is not None:
+        ref_out.append(ref)
 
     def fail(mech, what, **extra):
         if not quiet:
@@ -379,9 +415,18 @@ SENT_PASS = {"simple": "simple", "optional": "optional", "filtered": "filtered",
              "ls-index": "loop-specials", "ls-first": "loop-specials", "ls-last": "loop-specials",
              "ls-item": "loop-specials", "ls-field": "loop-specials"}
 
-COMBOS = ([(loc, form, s) for form in VAR_FORMS for loc in VAR_LOCS for s in COMMON_SENT]
-          + [(loc, "default", "default-echo") for loc in ("top", "if")]
-          + [(loc, form, s) for form in LOOP_FORMS for loc in LOOP_LOCS for s in COMMON_SENT + LOOP_SENT[form]])
+# Echo variants: the sentinel construct does not only arrive inside the value, the SAME construct (same name) is also a
+# real slot of the template that holds the value slot, before or after it. A renderer that substitutes per name / per
+# distinct construct text (instead of per occurrence) re-reads an inserted value only when its construct also occurs
+# as a real slot, which sentinels over names that occur nowhere else can never show.
+ECHO_FORMS = ["simple", "optional", "default", "filtered:trim", "filtered:json"]
+ECHOES = ["before", "after"]
+
+COMBOS = ([(loc, form, s, None) for form in VAR_FORMS for loc in VAR_LOCS for s in COMMON_SENT]
+          + [(loc, "default", "default-echo", None) for loc in ("top", "if")]
+          + [(loc, form, s, None) for form in LOOP_FORMS for loc in LOOP_LOCS for s in COMMON_SENT + LOOP_SENT[form]]
+          + [(loc, form, s, e) for form in ECHO_FORMS for loc in VAR_LOCS for s in COMMON_SENT for e in ECHOES]
+          + [(loc, form, s, e) for form in LOOP_FORMS for loc in LOOP_LOCS for s in COMMON_SENT for e in ECHOES])
 
 
 def mechanism_key(loc, form, pass_):
@@ -393,10 +438,22 @@ def mechanism_key(loc, form, pass_):
     return "opacity:%s->%s" % (base, pass_)
 
 
-def build_B(rng, host, host_bind, loc, form, sk):
-    """Insert one value slot into the host. Returns (templates, make_bind(value), construct, signature)."""
+def echo_node(sk, q):
+    """The sentinel construct of kind `sk` over name `q` as a real AST node (its unparsed text equals the construct)."""
+    return {"simple": ("var", q), "optional": ("opt", q), "filtered": ("filt", q, "lower"), "default": ("def", q, DFLT),
+            "include": ("inc", q + "t"), "if": ("if", q, [("text", MK)], None, " "),
+            "each": ("each", q, [("text", MK)], " ")}[sk]
+
+
+def build_B(rng, host, host_bind, loc, form, sk, echo=None):
+    """Insert one value slot into the host. Returns (templates, make_bind(value), construct, signature, info).
+    The sentinel's name sorts before ("zq") or after ("zu") the slot's name "zs", and the slot's value is bound
+    first or last in the context (a renderer that substitutes name by name in some order of the names must be
+    caught whatever that order is)."""
     T = {k: list(v) for k, v in host.items()}
     extra = {}
+    q = rng.choice(["zq", "zu"])
+    slot_first = rng.random() < 0.5
     n_items = rng.choice([2, 3])
     k = rng.randrange(n_items)
     if form in LOOP_FORMS:
@@ -427,21 +484,22 @@ def build_B(rng, host, host_bind, loc, form, sk):
         def place(b, v):
             b["zs"] = v
     # sentinel
-    construct = {"simple": "{{zq}}", "optional": "{{?zq}}", "filtered": "{{zq|lower}}", "default": "{{zq|%s}}" % DFLT,
-                 "default-echo": "{{zq|%s}}" % DFLT, "include": "{{>zqt}}", "if": "{{#if zq}}%s{{/if}}" % MK,
-                 "each": "{{#each zq}}%s{{/each}}" % MK, "ls-index": "{{index}}", "ls-first": "{{first}}",
+    construct = {"simple": "{{%s}}" % q, "optional": "{{?%s}}" % q, "filtered": "{{%s|lower}}" % q,
+                 "default": "{{%s|%s}}" % (q, DFLT), "default-echo": "{{%s|%s}}" % (q, DFLT), "include": "{{>%st}}" % q,
+                 "if": "{{#if %s}}%s{{/if}}" % (q, MK), "each": "{{#each %s}}%s{{/each}}" % (q, MK),
+                 "ls-index": "{{index}}", "ls-first": "{{first}}",
                  "ls-last": "{{last}}", "ls-item": "{{item}}", "ls-field": "{{zg}}"}[sk]
     sig = MK
     if sk in ("simple", "optional", "filtered"):
-        extra["zq"] = MK
+        extra[q] = MK
     elif sk in ("default", "default-echo"):
         sig = DFLT
     elif sk == "include":
-        T["zqt"] = [("text", MK)]
+        T[q + "t"] = [("text", MK)]
     elif sk == "if":
-        extra["zq"] = 1
+        extra[q] = 1
     elif sk == "each":
-        extra["zq"] = [0]
+        extra[q] = [0]
     elif sk == "ls-index":
         sig = str(k)
     elif sk == "ls-first":
@@ -453,7 +511,11 @@ def build_B(rng, host, host_bind, loc, form, sk):
     # placement
     nodes = [("text", "|"), node, ("text", "|")]
     if sk == "default-echo":
-        nodes.append(("def", "zq", DFLT))   # the same construct also occurs literally later in the template
+        nodes.append(("def", q, DFLT))   # the same construct also occurs literally later in the template
+    if echo is not None:                   # ... as a real slot of the same template, before / after the value slot
+        en = echo_node(sk, q)
+        assert unparse_one(en) == construct
+        nodes = [en] + nodes if echo == "before" else nodes + [en]
     if loc.startswith("inc"):
         depth = int(loc[3])
         for d in range(1, depth + 1):
@@ -465,11 +527,18 @@ def build_B(rng, host, host_bind, loc, form, sk):
     T["__main__"] = main[:pos] + nodes + main[pos:]
 
     def make_bind(v):
-        b = dict(host_bind)
+        b = {}
+        if slot_first:
+            place(b, v)
+        b.update(host_bind)
         b.update(extra)
-        place(b, v)
+        place(b, v)          # (assigning an existing key keeps its position)
         return b
-    return T, make_bind, construct, sig
+    return T, make_bind, construct, sig, {"sentinel_name": q, "slot_bound_first": slot_first}
+
+
+def unparse_one(node):
+    return M.unparse([node])
 
 
 def case_B(ctx, n):
@@ -479,11 +548,16 @@ def case_B(ctx, n):
     for s in M.SPECIALS:     # keep one interpretation per sentinel: no outer binding of the loop's own names
         host_bind.pop(s, None)
     hshape = tuple(sorted(M.construct_kinds(host)))   # coarse on purpose: 429 combinations per host
-    for ci, (loc, form, sk) in enumerate(COMBOS):
+    for ci, (loc, form, sk, echo) in enumerate(COMBOS):
         crng = ctx.rng("B", n, ci)
-        T, make_bind, construct, sig = build_B(crng, host, host_bind, loc, form, sk)
+        T, make_bind, construct, sig, info = build_B(crng, host, host_bind, loc, form, sk, echo)
         via = VIAS[(n + ci) % 3]
         ctx.count("partb_combos")
+        if echo:
+            ctx.count("partb_echo_" + echo)
+        if form not in LOOP_FORMS and sk in COMMON_SENT:
+            ctx.count("partb_slot_bound_%s_sentinel_name_sorts_%s" % (
+                "first" if info["slot_bound_first"] else "last", "after" if info["sentinel_name"] > "zs" else "before"))
         # 1. same shape with an inert value: must conform (so that a grammar bug is never booked as an opacity finding)
         if judge(ctx, T, make_bind(wrap("zinert")), False, via, prefix="partb-baseline:") is not None:
             continue
@@ -497,27 +571,32 @@ def case_B(ctx, n):
         except M.FilterRaised:
             ctx.count("filter_raised_not_judged")
             continue
-        ctx.nontrivial(("B", hshape, loc, form, sk))
+        ctx.nontrivial(("B", hshape, loc, form, sk, echo))
         slotname = "loop-item" if form in LOOP_FORMS else form.split(":")[0]
         if res[0] == "raise":
             ctx.violation("opacity-render-raises:%s" % slotname,
                           "rendering raised %s when a value contained %s" % (type(res[1]).__name__, construct),
-                          witness(T, bind, False, via, error=repr(res[1]), slot=[loc, form], sentinel=sk))
+                          witness(T, bind, False, via, error=repr(res[1]), slot=[loc, form], sentinel=sk, echo=echo))
             continue
         text = res[1]
         if M.matches(parts, text):
             ctx.count("partb_opaque_ok")
             ctx.count("opaque_ok:%s" % slotname)
+            if echo:
+                ctx.count("partb_echo_opaque_ok")
+                ctx.count("opaque_ok_echo_%s:%s" % (echo, slotname))
             continue
         # 3. which pass interpreted it? compare with the expansion in which exactly this construct was expanded
         ibind = make_bind(wrap(sig))
         iparts = M.Ref(T, rib.filters, ibind).render("__main__")
-        w = witness(T, bind, False, via, expected=M.concrete(parts), actual=text, slot=[loc, form], sentinel=sk)
+        w = witness(T, bind, False, via, expected=M.concrete(parts), actual=text, slot=[loc, form], sentinel=sk,
+                    sentinel_construct_also_a_real_slot=echo, **info)
         if M.matches(iparts, text):
             key = mechanism_key(loc, form, SENT_PASS[sk])
             ctx.count("reinterpreted:" + key[len("opacity:"):])
-            ctx.violation(key, "a %s value containing %s was re-interpreted by the %s pass (slot at %s)"
-                          % (slotname, construct, SENT_PASS[sk], loc), w)
+            ctx.violation(key, "a %s value containing %s was re-interpreted by the %s pass (slot at %s%s)"
+                          % (slotname, construct, SENT_PASS[sk], loc,
+                             "; the same construct is a real slot %s the value slot" % echo if echo else ""), w)
         else:
             ctx.violation("opacity-unclassified:%s:%s" % (slotname, sk),
                           "output with a %s value containing %s is neither the verbatim nor the single-interpretation expansion"
@@ -569,8 +648,8 @@ class Reentry:
 
 
 RENDER_STEPS = ["revalue", "revalue-one", "same", "new", "mutate-list", "reregister", "register-unknown", "repage",
-                "toggle-strict"]
-STEP_WEIGHTS = [30, 10, 8, 15, 10, 10, 5, 4, 4]
+                "toggle-strict", "neighbour"]
+STEP_WEIGHTS = [30, 10, 8, 15, 10, 10, 5, 4, 4, 8]
 REG_HOW = ["register", "register-named", "create"]
 
 
@@ -584,6 +663,46 @@ def register(rib, mRNA, name, seq, how):
         rib.create_template(seq, name)
 
 
+def build_neighbour(rng, templates, strict):
+    """ANOTHER renderer in the same process, configured differently from the session's renderer in everything a renderer
+    can be configured with: its own custom filters (named like the single-word default texts of the session's templates,
+    like the generator's default words, sometimes like a built-in filter or like the session's own custom filter), its
+    own templates under the SAME names as the session's (plus names the session's renderer does not know), the other
+    `strict`. Its own page uses its filter, a shared template name, a default text that is a custom filter name of the
+    SESSION's renderer, and an include that only one of the two renderers may know."""
+    R, mRNA = _classes()
+    fnames = [w for w in sorted(M.default_words(templates)) if rng.random() < 0.8]
+    fnames += [w for w in M.DEFAULT_WORDS if w not in fnames and rng.random() < 0.5]
+    if rng.random() < 0.3:
+        fnames.append(rng.choice(["upper", "trim", "json", "title"]))
+    if rng.random() < 0.25:
+        fnames.append("rev")
+    fnames.append("nbf")
+    filters = {w: (lambda x, w=w: "<%s:%s>" % (w, x)) for w in fnames}
+    names = [nm for nm in templates if nm != "__main__"]
+    names += [u for u in M.UNKNOWN_INC if u not in templates and rng.random() < 0.5]
+    nbt = {nm: [("text", "[nb %s:" % nm), ("var", "zr"), ("text", "]")] for nm in names}
+    dword = "rev" if "rev" not in filters else "nbword"
+    nbt["__main__"] = [("text", "<"), ("filt", "zr", "nbf"), ("text", "|"), ("inc", rng.choice(sorted(names))),
+                       ("text", "|"), ("def", "zm", dword), ("text", "|"), ("def", "zr", dword), ("text", "|"),
+                       ("inc", rng.choice(M.UNKNOWN_INC)), ("text", ">")]
+    pre = {nm: mRNA(sequence=M.unparse(nodes), name=nm) for nm, nodes in nbt.items() if nm != "__main__"}
+    seq = M.unparse(nbt["__main__"])
+    if rng.random() < 0.5:
+        rib = R(templates=dict(pre), filters=filters, strict=not strict, silent=True)
+    else:
+        rib = R(filters=filters, strict=not strict, silent=True)
+        for nm in pre:
+            rib.register_template(pre[nm])
+    rib.create_template(seq, "page0")
+    pure = dict(_MON["builtin"])
+    pure.update(filters)
+    return {"rib": rib, "templates": nbt, "seq": seq, "page": rib.templates["page0"], "pure": pure, "strict": not strict,
+            "filter_names": set(fnames), "template_names": set(names),
+            "desc": {"filters": sorted(fnames), "templates": {k: M.unparse(v) for k, v in nbt.items()},
+                     "strict": not strict}}
+
+
 def case_C(ctx, n):
     """A session: ONE renderer, 3-9 renderings separated by the things a caller does between renderings (new values
     for the same names, one value changed, a bound list changed in place, a partial / the page registered again, a so
@@ -594,20 +713,38 @@ def case_C(ctx, n):
     templates, names = M.gen_templates(rng, max_main=6, p_inc=0.9)
     templates["zsub"] = NEST_SUB
     strict = rng.random() < 0.25
-    pure = dict(R.BUILTIN_FILTERS)
+    pure = dict(_MON["builtin"])
     pure.update(M.custom_filters())
     reentrant = rng.random() < 0.6
     re_ = Reentry(pure)
     flt = re_.filters() if reentrant else M.custom_filters()
-    pre = {nm: mRNA(sequence=M.unparse(nodes), name=nm) for nm, nodes in templates.items() if nm != "__main__"}
-    if rng.random() < 0.5:      # registry handed to the constructor
-        rib = R(templates=dict(pre), filters=flt, strict=strict, silent=True)
-    else:
-        rib = R(filters=flt, strict=strict, silent=True)
+
+    def make_renderer():
+        """A renderer with the session's configuration and the templates registered at this moment."""
+        pre = {nm: mRNA(sequence=M.unparse(nodes), name=nm) for nm, nodes in templates.items() if nm != "__main__"}
+        if rng.random() < 0.5:      # registry handed to the constructor
+            return R(templates=dict(pre), filters=flt, strict=strict, silent=True)
+        r = R(filters=flt, strict=strict, silent=True)
         for nm in pre:
-            rib.register_template(pre[nm])
+            r.register_template(pre[nm])
+        return r
+    rib = make_renderer()
     re_.rib = rib
     st = {"seq": None, "page": None}
+    neighbours = []
+    created_after_neighbour = False
+
+    def use_neighbour(nb, when):
+        """The other renderer renders its own page; it must follow ITS configuration (and not the session renderer's)."""
+        via = rng.choice(VIAS)
+        nbind = M.copy.deepcopy(bind) if bind else {}
+        nbind.pop("zm", None)
+        nbind["zr"] = "n%d" % len(history)
+        res = render_on(nb["rib"], nb["seq"], nb["page"], nbind, via)
+        ctx.count("partc_neighbour_renders")
+        history.append({"step": "neighbour-renders-its-page", "via": via, "zr": nbind["zr"]})
+        assess(ctx, nb["templates"], nb["pure"], res, nbind, nb["strict"], via, prefix="session:neighbour-%s:" % when,
+               tag="partc_nb", extra_witness=lambda: {"history": list(history), "neighbour": nb["desc"]})
 
     def set_page(how="register"):
         st["seq"] = M.unparse(templates["__main__"])
@@ -642,6 +779,21 @@ def case_C(ctx, n):
         elif step == "toggle-strict":
             strict = not strict
             rib.strict = strict
+        elif step == "neighbour":
+            nb = build_neighbour(rng, templates, strict)
+            neighbours.append(nb)
+            ctx.count("partc_neighbours_built")
+            moved = rng.random() < 0.5
+            history.append(dict(nb["desc"], step="another renderer is created and used",
+                                session_continues_on="a renderer created afterwards" if moved else "the same renderer"))
+            use_neighbour(nb, "own-page")
+            if moved:       # the session goes on with a renderer created AFTER the other one (same configuration, same templates)
+                rib = make_renderer()
+                re_.rib = rib
+                set_page()
+            created_after_neighbour = moved      # relative to the most recently created other renderer
+            if rng.random() < 0.5:
+                bind = M.revalue(rng, templates, bind)
         else:
             how = rng.choice(REG_HOW)
             lv = M.include_levels(templates)
@@ -694,10 +846,19 @@ def case_C(ctx, n):
         def extra(bind=snap, strict=strict, via=via):
             # would a renderer without this history render it correctly?
             fresh = judge(ctx, {k: v for k, v in templates.items()}, bind, strict, via, quiet=True) is None
-            return {"history": list(history), "reentrant_filters": reentrant, "fresh_renderer_conforms": fresh}
+            return {"history": list(history), "reentrant_filters": reentrant, "fresh_renderer_conforms": fresh,
+                    "other_renderers_in_the_process": len(neighbours)}
+        refs = []
         mech = assess(ctx, templates, pure, res, bind, strict, via, prefix="session:after-%s:" % step, tag="partc",
-                      extra_witness=extra, stats_out=stats)
+                      extra_witness=extra, stats_out=stats, ref_out=refs)
         done.append(step)
+        if neighbours and stats:
+            ctx.count("partc_renders_while_another_renderer_exists")
+            ctx.count("partc_render_on_renderer_created_%s_the_other" % ("after" if created_after_neighbour else "before"))
+            if any(refs[0].def_words & nb["filter_names"] for nb in neighbours):
+                ctx.count("partc_default_text_is_filter_name_on_other_renderer")
+            if any(set(refs[0].unknown) & nb["template_names"] for nb in neighbours):
+                ctx.count("partc_unknown_include_is_template_of_other_renderer")
         # the deciding situations, counted so that their absence makes the run inconclusive
         ks = frozenset(bind)
         has_inc = any(stats.get("ref_include_depth%d" % d) for d in (1, 2, 3))
@@ -725,6 +886,8 @@ def case_C(ctx, n):
                               {"nested_template": M.unparse(NEST_MAIN), "zsub": M.unparse(NEST_SUB), "nested_context": nb,
                                "expected": expected, "actual": got[1], "history": list(history)})
         del re_.log[:]
+    for nb in neighbours:      # ... and the session renderer's later registrations / strict changes must not reach the other one
+        use_neighbour(nb, "own-page-later")
     if len(kinds) >= 2 and len(done) >= 2:
         ctx.nontrivial(("C", shp, tuple(done), reentrant))
     if n % 499 == 0:
